@@ -5,6 +5,7 @@ use crate::runner::*;
 use serde_json::{json, Value};
 
 pub mod common;
+pub mod c01;
 pub mod c02;
 pub mod c03;
 pub mod c04;
@@ -16,10 +17,11 @@ pub mod c09;
 pub mod c15;
 pub mod c16;
 
-pub const ALL: &[&str] = &["C02", "C03", "C04", "C05", "C06", "C07", "C08", "C09", "C15", "C16"];
+pub const ALL: &[&str] = &["C01", "C02", "C03", "C04", "C05", "C06", "C07", "C08", "C09", "C15", "C16"];
 
 pub fn run(ctx: &Ctx) -> i32 {
     match ctx.prop.as_str() {
+        "C01" => c01::run(ctx),
         "C02" => c02::run(ctx),
         "C03" => c03::run(ctx),
         "C04" => c04::run(ctx),
@@ -39,6 +41,7 @@ pub fn run(ctx: &Ctx) -> i32 {
 
 pub fn replay_case(prop: &str, suite: &str, case: &Value) -> Option<Verdict> {
     match prop {
+        "C01" => c01::replay(suite, case),
         "C02" => c02::replay(suite, case),
         "C03" => c03::replay(suite, case),
         "C04" => c04::replay(suite, case),
